@@ -1453,30 +1453,22 @@ class CircuitTemplate(AbstractBaseTemplate):
 
         if depth > self._depth:
             raise ValueError('Input depth does not match the hierarchical depth of the circuit.')
+        if depth == 0:
+            return node_key, self.update_template(nodes={node_key: node})
 
-        path = []
-        input_circuits = {}
-        inp_circuit = input_circuits
+        # chain of input circuits `input_lvl_0/input_lvl_1/...`, as far as earlier inputs have created it already
+        path = [f"input_lvl_{i}" for i in range(depth)]
+        chain = []
         net = self
-        for i in range(depth):
-            circuit_key = f"input_lvl_{i}"
-            if circuit_key not in net.circuits:
-                c = CircuitTemplate(name=circuit_key, path='none')
-                net = net.update_template(circuits={circuit_key: c})
-                inp_circuit[circuit_key] = {}
-            else:
-                inp_circuit[circuit_key] = net.circuits[circuit_key]
-            net = net.circuits[circuit_key]
-            if i < depth - 1:
-                inp_circuit = inp_circuit[circuit_key]
-            else:
-                net = net.update_template(nodes={node_key: node})
-                inp_circuit[circuit_key] = net
-            path.append(circuit_key)
-        else:
-            net = net.update_template(nodes={node_key: node})
-        if depth > 0:
-            net = self.update_template(circuits=input_circuits)
+        for key in path:
+            net = net.circuits.get(key) if net is not None else None
+            chain.append(net if net is not None else CircuitTemplate(name=key, path='none'))
+
+        # add the node at the innermost level and rebuild the chain bottom-up
+        inner = chain[-1].update_template(nodes={node_key: node})
+        for i in range(depth - 2, -1, -1):
+            inner = chain[i].update_template(circuits={path[i + 1]: inner})
+        net = self.update_template(circuits={path[0]: inner})
         return "/".join(path + [node_key]), net
 
     def _get_nodes_with_var(self, var: tuple, nodes: list) -> list:
